@@ -248,7 +248,82 @@ def c06(ctx):
                'configurations without parameters must print byte-identically to a #[derive(Debug)] twin; non-trivial = any non-default setting or more than one variant')
 
 
+# ---------------------------------------------------------------- C08
+class DefaultRender(TypeRender):
+    NAT = {'none': 'i32', 'int': 'i32', 'str': "&'static str", 'bool': 'bool', 'char': 'char', 'float': 'f64'}
+
+    def __init__(self, idx, cfg, prop):
+        super().__init__(idx, cfg, prop)
+        self.pool = None
+
+    def field_type(self, v, i, f):
+        if f['ty'] == 'nat':
+            return self.NAT[f['dflt']]
+        return 'PK<%d>' % i
+
+    def lit_text(self, kind, i):
+        return {'int': '%d' % (10 + i), 'str': '"%d"' % (10 + i), 'bool': 'true', 'char': "'%d'" % i,
+                'float': '%d.0' % (10 + i), 'expr': 'probes::pexpr(%d)' % (10 + i)}[kind]
+
+    def extra_field_metas(self, v, i, f):
+        from render import pick
+        key = (self.idx, v, i)
+        if f['dflt'] != 'none':
+            t = self.lit_text(f['dflt'], i)
+            return [pick(['Default = %s', 'Default(expression = %s)', 'Default(expr = %s)', 'Default(expression(%s))', 'Default(expr(%s))'], 'dfl', key) % t]
+        if f.get('deref') and self.cfg['kind'] == 'union':
+            return ['Default']
+        return []
+
+    def type_default_expr(self):
+        c = self.cfg
+        v = len(c['variants'])
+        var = c['variants'][v - 1]
+        path = self.name if c['kind'] != 'enum' else '%s::V%d' % (self.name, v)
+        n = len(var['fields'])
+        if c['kind'] == 'union':
+            return '%s { f1: probes::pexpr(66) }' % path
+        if var['style'] == 'unit':
+            return path
+        args = ['probes::pexpr(66)'] * n
+        if var['style'] == 'named':
+            return '%s { %s }' % (path, ', '.join('%s: %s' % (self.fname(v, i), a) for i, a in enumerate(args, 1)))
+        return '%s(%s)' % (path, ', '.join(args))
+
+    def field_ctor(self, v, i, f, side, val):
+        return 'unreachable!()'
+
+    def case_impl(self):
+        c = self.cfg
+        if c['kind'] == 'union':
+            finger = 'fn finger(&self) -> String { unsafe { format!("[1,[{}]]", self.f1.finger()) } }'
+        else:
+            fa = ' '.join(self.finger_arm(v, var) + ',' for v, var in enumerate(c['variants'], 1))
+            finger = 'fn finger(&self) -> String { match self { %s } }' % fa
+        return ('impl Case for %s { const ID: usize = %d; fn nvariants() -> usize { 0 } fn nfields(v: usize) -> usize { 0 } '
+                'fn make(s: u8, v: usize, x: &[i8]) -> Self { unreachable!() } %s }' % (self.name, self.idx, finger))
+
+
+def c08(ctx):
+    quick = ctx.tier == 'quick'
+    runs = [{'module': 'MC_C08', 'cfg': 'MC_C08_quick.cfg', 'workers': 8}] if quick else \
+           [{'module': 'MC_C08', 'cfg': 'MC_C08_thorough.cfg', 'workers': 12, 'timeout': 3000, 'heap': '16g'}]
+
+    def calls(r):
+        nf = 'Some(&|| %s::new())' % r.name if r.opts.get('newfn') else 'None'
+        return ['run_default::<%s, _>(&mut out, %s);' % (r.name, nf)]
+
+    r_property(ctx, runs, ['DoSeal', 'DoBegin', 'Step', 'Return'], DefaultRender, calls, [0, 1],
+               COMMON_ASSUMPTIONS + ['one probe type per field position (PK<i>) so that the fingerprint of a defaulted field identifies the field'],
+               'struct/enum/union shapes within the bounds of the MC_C08 cfg x position of the #[educe(Default)] marker (first/middle/last, single variant with and without) x '
+               'per-field source {Default::default(), literal of kind int/str/bool/char/float into a non-natural (probe) or natural field type, non-literal expression} in every '
+               'spelling x new x type-level expression; T::default() and T::new() observed as per-field fingerprints (origin, value, how produced) plus the number of '
+               'From<literal> conversions; non-trivial = any non-default setting or more than one variant')
+    ctx.coverage['evaluations'] = ctx.coverage['programs']
+
+
 REGISTRY = {
+    'C08': c08,
     'C06': c06,
     'C07': c07,
     'C04': c04,
